@@ -27,6 +27,11 @@ META: dict[str, dict[str, str]] = {
         "note": "Exception set of pickle.load per the Python documentation; os.replace atomic within a directory; mkstemp unique." + COMMON_NOTE,
         "technique": "static analysis: structured path enumeration with inter-procedural splicing and a taint/typestate interpretation (load, key, verified, final, tmp)",
     },
+    "C18": {
+        "level": "Decides the structural clauses: binder discipline (a class that removes bound symbols from free_symbols guards their substitution), the shape of evaluate (Add over itertools.product of all pools, zip(symbols, combination) into the summand), the subtrahend of free_symbols, and on every path of cleanup whether an index is kept, substituted or compensated. The dropped-unused-index path of cleanup is a recorded known finding (K2). Evaluation for arbitrary summands is not decided.",
+        "note": "SymPy's subs protocol (_eval_subs consulted first) and ExprWithLimits' own guards are trusted." + COMMON_NOTE,
+        "technique": "static analysis: binder sibling rule, role check of the evaluate comprehension after local inlining, path enumeration of the cleanup loop",
+    },
     "C14": {
         "level": "Decides the structural necessary conditions of the substitution/equality/folding laws for every @unevaluated class (enumerated from the AST): reconstruction hooks read arguments shallowly and completely, self.args unpackings match the field lists, the hash hook covers non-SymPy fields, folded classes print through their unfolding. Universal over argument shapes because it speaks about the hook code, not about sampled instances. Does not decide the laws for arbitrary values.",
         "note": "External-API table: dataclasses.astuple/asdict/copy.deepcopy are deep; Basic.subs/xreplace dispatch to _eval_subs/_xreplace." + COMMON_NOTE,
